@@ -79,6 +79,11 @@ type Closure struct {
 	Bind []Val
 }
 
+type epochArm struct {
+	R  Term
+	ep int
+}
+
 // Unit is one verification unit: a function body (with inlined callees) and its obligations.
 type Unit struct {
 	eng         *Engine
@@ -94,6 +99,7 @@ type Unit struct {
 	errs        []string
 	nlocal      int
 	nepoch      int
+	epochJoin   map[int][]epochArm
 	inQuant     int
 	lockDefault bool // lock heaps start all-free (function entered with no modelled lock held)
 	declared    map[string]bool
@@ -152,7 +158,15 @@ func (un *Unit) heapAt(name string, s Sort, ep int) Term {
 	if !un.declared[n] {
 		un.declared[n] = true
 		un.decls = append(un.decls, fmt.Sprintf("(declare-const %s %s)", n, s))
-		un.heapTyping(name, Term{n, s})
+		nx := Term{}
+		if ep == 0 && name != "$next" {
+			nx = un.heapAt("$next", SInt, 0)
+		}
+		un.heapTyping(name, Term{n, s}, nx)
+		for _, arm := range un.epochJoin[ep] {
+			child := un.heapAt(name, s, arm.ep)
+			un.decls = append(un.decls, "(assert "+Implies(arm.R, Eq(Term{n, s}, child)).S+")")
+		}
 		if ep == 0 && un.lockDefault && strings.HasPrefix(name, "K_") {
 			un.decls = append(un.decls, fmt.Sprintf("(assert (= %s ((as const %s) 0)))", n, s))
 		}
@@ -173,7 +187,28 @@ func (un *Unit) H(st *State, name string, s Sort) Term {
 }
 
 func isLocalKey(k string) bool {
-	return strings.HasPrefix(k, "$") || (len(k) > 1 && k[0] == 'L' && k[1] >= '0' && k[1] <= '9')
+	return strings.HasPrefix(k, "$") || strings.HasPrefix(k, "K_") || (len(k) > 1 && k[0] == 'L' && k[1] >= '0' && k[1] <= '9')
+}
+
+// havocAllButGhost forgets every program heap; ghost variables and lock states keep their values.
+func (un *Unit) havocAllButGhost(st *State) {
+	keep := map[string]Term{}
+	for k, v := range st.H {
+		if strings.HasPrefix(k, "G_") {
+			keep[k] = v
+		}
+	}
+	// ghost variables never written on this path keep the value of the current epoch
+	for g, srt := range un.eng.ghostVars {
+		k := "G_" + sanitize(g)
+		if _, ok := keep[k]; !ok {
+			keep[k] = un.H(st, k, srt)
+		}
+	}
+	un.havocAll(st)
+	for k, v := range keep {
+		st.H[k] = v
+	}
 }
 
 // havocAll forgets every heap except locals and the allocation counter.
@@ -360,31 +395,40 @@ func (un *Unit) mapHeaps(m types.Type) (string, string) {
 
 // heapTyping asserts that every value stored in a freshly introduced heap constant is within
 // the range of its Go type (a typing invariant of Go memory, not an assumption about the program).
-func (un *Unit) heapTyping(name string, h Term) {
+func (un *Unit) heapTyping(name string, h Term, next Term) {
 	t, ok := un.heapType[name]
 	if !ok {
 		return
 	}
 	r := Term{"r!ht", SInt}
 	i := Term{"i!ht", SInt}
+	var st *State
+	if next.S != "" {
+		// references stored in memory are allocated: not above the allocation counter
+		st = &State{H: map[string]Term{"$next": next}}
+	}
 	switch {
 	case strings.HasPrefix(name, "F_"), strings.HasPrefix(name, "C_"):
 		v := Select(h, r)
-		if f := un.typeFacts(t, v, nil, 1); f.S != "true" {
+		if f := un.typeFacts(t, v, st, 1); f.S != "true" {
 			un.decls = append(un.decls, "(assert "+Forall([]Term{r}, f, v).S+")")
 		}
 	case strings.HasPrefix(name, "E_"):
 		v := Select(Select(h, r), i)
-		if f := un.typeFacts(t, v, nil, 1); f.S != "true" {
+		if f := un.typeFacts(t, v, st, 1); f.S != "true" {
 			un.decls = append(un.decls, "(assert "+Forall([]Term{r, i}, f, v).S+")")
 		}
 	}
 }
 
 // freshHeap introduces a new unconstrained version of heap `name`.
-func (un *Unit) freshHeap(name string, s Sort) Term {
+func (un *Unit) freshHeap(st *State, name string, s Sort) Term {
 	h := un.fresh(name, s)
-	un.heapTyping(name, h)
+	nx := Term{}
+	if st != nil && name != "$next" {
+		nx = un.H(st, "$next", SInt)
+	}
+	un.heapTyping(name, h, nx)
 	return h
 }
 
@@ -543,8 +587,15 @@ func (un *Unit) mergeStates(sts []State) State {
 	}
 	for _, s := range sts {
 		if s.Ep != out.Ep {
+			// heaps never touched on any incoming path are joined lazily (see heapAt)
 			un.nepoch++
 			out.Ep = un.nepoch
+			var arms []epochArm
+			for i := range sts {
+				sts[i].R = un.define("E", sts[i].R)
+				arms = append(arms, epochArm{sts[i].R, sts[i].Ep})
+			}
+			un.epochJoin[out.Ep] = arms
 			break
 		}
 	}
@@ -590,7 +641,26 @@ func (un *Unit) mergeStates(sts []State) State {
 	return out
 }
 
+// iteChain joins the values arriving over several edges. Arrays are joined by guarded equalities
+// (E_i => v = v_i) rather than nested ite terms, so that E-matching sees through the join once the solver
+// (or a case split) has picked an edge.
 func (un *Unit) iteChain(sts []State, vals []Term) Term {
+	same := true
+	for _, v := range vals[1:] {
+		if v.S != vals[0].S {
+			same = false
+		}
+	}
+	if same {
+		return vals[0]
+	}
+	if strings.HasPrefix(string(vals[0].Sort), "(Array ") && un.inQuant == 0 {
+		v := un.fresh("join", vals[0].Sort)
+		for i := range vals {
+			un.decls = append(un.decls, "(assert "+Implies(sts[i].R, Eq(v, vals[i])).S+")")
+		}
+		return v
+	}
 	res := vals[len(vals)-1]
 	for i := len(vals) - 2; i >= 0; i-- {
 		res = Ite(sts[i].R, vals[i], res)
